@@ -77,7 +77,7 @@ pub fn compile(
         DebugPrinter::new().run(&cst, &sema);
     }
     if !diags.iter().any(|d| d.severity == Severity::Error) {
-        if graph {
+        if graph && !check {
             GraphvizOutput::run(&cst, &sema)?;
         }
         if !check {
